@@ -187,3 +187,40 @@ def rule_who_admits(ctx, res, floors=True):
         res.check(got <= exp[f] and len(sites[f]) >= floor[f], 'WHO', f, 'called only from %s (floor %d sites)' % (sorted(lib.short(x) for x in exp[f]), floor[f]),
                   detail='callers: %s (%d sites)' % (sorted(got), len(sites[f])), key='callers')
     return sites
+
+
+# ------------------------------------------------------------------------------------------------
+# closed world: what a dependent crate can name (effective visibility facts of rustc)
+
+EXPORTED_MODS = {'', 'router', 'message', 'message::error_code'}
+EXPORTED_ADTS = {'action::State', 'info_hash::InfoHash', 'info_hash::LengthError', 'mainline_dht::MainlineDht', 'mainline_dht::DhtBuilder',
+                 'message::Message', 'message::MessageBody', 'message::Request', 'message::PingRequest', 'message::FindNodeRequest', 'message::GetPeersRequest',
+                 'message::AnnouncePeerRequest', 'message::Want', 'message::Response', 'message::Error'}
+EXPORTED_INHERENT = {'mainline_dht::MainlineDht::builder', 'mainline_dht::MainlineDht::get_state', 'mainline_dht::MainlineDht::bootstrapped', 'mainline_dht::MainlineDht::search',
+                     'mainline_dht::MainlineDht::local_addr', 'mainline_dht::MainlineDht::load_contacts', 'mainline_dht::DhtBuilder::add_node', 'mainline_dht::DhtBuilder::add_router',
+                     'mainline_dht::DhtBuilder::add_routers', 'mainline_dht::DhtBuilder::set_read_only', 'mainline_dht::DhtBuilder::set_announce_port', 'mainline_dht::DhtBuilder::set_node_id',
+                     'mainline_dht::DhtBuilder::start', 'info_hash::InfoHash::from_ip', 'info_hash::InfoHash::sha1', 'message::Message::encode', 'message::Message::decode',
+                     'SocketTrait::send_to', 'SocketTrait::recv_from', 'SocketTrait::local_addr'}
+
+
+def rule_closed_world(ctx, res):
+    """state-changing APIs cannot be named by a dependent crate: the who-may-call/construct/write rules
+    quantify over all callers that can exist"""
+    mods = {m['path'] for m in ctx.f.j['items']['mods'] if m['vis']['exported']}
+    res.check(mods <= EXPORTED_MODS, 'TYPE', 'crate', 'only the modules router, message (and message::error_code) are exported', detail=str(sorted(mods - EXPORTED_MODS)), key='exported-mods')
+    adts = {a['path'] for a in ctx.f.j['items']['adts'] if a['vis']['exported']}
+    res.check(adts <= EXPORTED_ADTS, 'TYPE', 'crate', 'no state-holding type (table, bucket, node, store, token store, timer, search, handler, socket) is exported', detail=str(sorted(adts - EXPORTED_ADTS)), key='exported-adts')
+    fns = {f['path'] for f in ctx.f.j['items']['fns'] if f['vis']['exported'] and f['parent_impl'] is not None and not f['path'].startswith('<') and '<impl ' not in f['path']} | \
+          {f['path'] for f in ctx.f.j['items']['fns'] if f['vis']['exported'] and f['parent_impl'] is None}
+    res.check(fns <= EXPORTED_INHERENT, 'TYPE', 'crate', 'the exported inherent API is MainlineDht / DhtBuilder / InfoHash::{from_ip, sha1} / Message::{encode, decode} / SocketTrait', detail=str(sorted(fns - EXPORTED_INHERENT)), key='exported-fns')
+    unsafe = [f['path'] for f in ctx.f.j['items']['fns'] if f['safety'] != 'Safe']
+    res.check(not unsafe, 'TYPE', 'crate', 'the crate declares no unsafe fn', detail=str(unsafe), key='no-unsafe-fn')
+    # pub fields of exported builder / handle types would be a mutation surface
+    pubf = []
+    for a in ctx.f.j['items']['adts']:
+        if a['path'] in ('mainline_dht::MainlineDht', 'mainline_dht::DhtBuilder') or (not a['vis']['exported'] and a['path'].split('::')[0] in ('table', 'bucket', 'node', 'storage', 'token', 'timer')):
+            for v in a['variants']:
+                for fl in v['fields']:
+                    if fl['vis'] == 'pub' and a['vis']['exported']:
+                        pubf.append(a['path'] + '.' + fl['name'])
+    res.check(not pubf, 'TYPE', 'crate', 'MainlineDht and DhtBuilder expose no public field', detail=str(pubf), key='pub-fields')
